@@ -612,6 +612,17 @@ func check(id, tier string, seed int64) int {
 		for _, c := range classes {
 			v := a.viols[c]
 			ok, out := confirm(a.unit, scratch, v.Replay, false)
+			if !ok && strings.Contains(out, "REPLAY-SAMECLASS-DIFFERENT-HASH") {
+				// The same violation, but not the same event log. The harnesses and the unchanged tree are deterministic
+				// (selftest gate), so the code under test has a source of nondeterminism of its own (a sync.Pool whose
+				// contents depend on the processor a goroutine runs on, say). Accepted if the class reproduces twice more.
+				ok2, out2 := confirm(a.unit, scratch, v.Replay, false)
+				ok3, out3 := confirm(a.unit, scratch, v.Replay, false)
+				if (ok2 || strings.Contains(out2, "REPLAY-SAMECLASS-DIFFERENT-HASH")) && (ok3 || strings.Contains(out3, "REPLAY-SAMECLASS-DIFFERENT-HASH")) {
+					ok = true
+					v.Msg += " [replays with the same violation class; the event log varies from process to process: the code under test is itself nondeterministic]"
+				}
+			}
 			if !ok {
 				// never reported: a violation must reproduce from its replay file in a fresh process
 				if len(out) > 3000 {
